@@ -35,7 +35,10 @@ def variants(n):
          ("flip0", ident, [1] + [0] * (n - 1), base, "dnf", "bnet"),
          ("reverse+flipall", ident[::-1], [1] * n, [nm + "_x" for nm in base], "cnf", "bnet"),
          ("order-only", ident[::-1], [0] * n, base[::-1], "dnf", "bnet"),
-         ("rename-prefix", ident, [0] * n, PREFIXNAMES[:n], "dnf", "bnet")]
+         ("rename-prefix", ident, [0] * n, PREFIXNAMES[:n], "dnf", "bnet"),
+         # variables whose dynamics are the identity written as FREE INPUTS (no rule at all; AEON creates an implicit
+         # parameter without regulators, which biobalm accepts as an input that never changes)
+         ("free-inputs", ident, [0] * n, base, "dnf", "bnet-free")]
     return V
 
 
@@ -93,10 +96,37 @@ def run_sd(text, fmt, names):
     return {"exc": r["exc"] or seeds["exc"], "msg": r.get("msg") or seeds.get("msg"), "dump": ops.dump_sd(sd, names, attractors=False), "seeds": seeds["ret"]}
 
 
+def drop_identity_rules(text, tables, names, symbolic):
+    """bnet text without the rules of identity variables (kept if nothing else mentions the variable)"""
+    import re
+    n = len(names)
+    states = list(itertools.product((0, 1), repeat=n))
+    ident = []
+    for v in range(n):
+        is_id = all(bool(tables[v][i]) == bool(x[v]) for i, x in enumerate(states))
+        if symbolic:
+            from engine.cab import CTX
+            from engine.symnet import fAnd
+            net = CTX.net
+            # the harness branches on "is the identity": an observation
+            is_id = CTX.obs(fAnd([net.fval(v, x) if x[v] else z3.Not(net.fval(v, x)) for x in net.states]))
+        if is_id:
+            ident.append(names[v])
+    lines = [ln for ln in text.splitlines() if ln.strip()]
+    kept_expr = " ".join(l.split(",", 1)[1] for l in lines if l.split(",", 1)[0].strip() not in ident)
+    out = []
+    for ln in lines:
+        nm = ln.split(",", 1)[0].strip()
+        if nm in ident and re.search(r"(?<![A-Za-z0-9_])" + re.escape(nm) + r"(?![A-Za-z0-9_])", kept_expr):
+            continue
+        out.append(ln)
+    return "\n".join(out) + "\n"
+
+
 def to_format(text, fmt):
     import biodivine_aeon as ba
     from engine import oracles
-    if fmt == "bnet":
+    if fmt in ("bnet", "bnet-free"):
         return text
     BN = oracles.REAL.get("BooleanNetwork", ba.BooleanNetwork)
     bn = BN.from_bnet(text)
@@ -118,6 +148,9 @@ def execute(rules, names, which, views, symbolic):
             continue
         t2 = transform_tables(tables, perm, flips)
         text = to_format(render(t2, vnames, style), fmt)
+        if fmt == "bnet-free":
+            text = drop_identity_rules(text, t2, vnames, symbolic)
+            fmt = "bnet"
         if symbolic:
             with oracles.use_net(views[label]):
                 out["variants"][label] = run_sd(text, fmt, vnames)
@@ -285,14 +318,14 @@ def replay(rec):
 def tasks(tier, seed, selftest=False):
     T = []
     q = tier == "quick"
-    groups = [["cnf", "ite"], ["aeon", "sbml"], ["rename+rotate", "order-only"], ["flip0", "reverse+flipall"], ["rename-prefix"]]
+    groups = [["cnf", "ite"], ["aeon", "sbml"], ["rename+rotate", "order-only"], ["flip0", "reverse+flipall"], ["rename-prefix"], ["free-inputs"]]
     for g in groups:
         T.append({"prop": PROP, "family": "U2", "label": "U2/" + "+".join(g), "timebox": 60 if q else 600, "seed": seed, "params": {"which": g, "selftest": selftest}})
         if selftest:
             return T
         T.append({"prop": PROP, "family": "D3", "label": "D3/" + "+".join(g), "timebox": 40 if q else 1200, "seed": seed, "params": {"which": g}})
-        if not q:
-            T.append({"prop": PROP, "family": "S1C2", "label": "S1C2/" + "+".join(g), "timebox": 600, "seed": seed, "params": {"which": g}})
+        if not q or g == ["free-inputs"]:
+            T.append({"prop": PROP, "family": "S1C2", "label": "S1C2/" + "+".join(g), "timebox": 30 if q else 600, "seed": seed, "params": {"which": g}})
     T.append({"prop": PROP, "family": "-", "label": "sanitize/k=2", "timebox": 90 if q else 900, "seed": seed, "params": {"mode": "sanitize", "k": 2, "L": 2 if q else 3}})
     T.append({"prop": PROP, "family": "-", "label": "sanitize/k=3", "timebox": 60 if q else 900, "seed": seed, "params": {"mode": "sanitize", "k": 3, "L": 1 if q else 2}})
     return T
@@ -301,7 +334,7 @@ def tasks(tier, seed, selftest=False):
 def main(tier, seed, t0, selftest=False):
     results = common.run_tasks(tasks(tier, seed, selftest))
     return common.finish(PROP, tier, seed, "model_checking", results, t0, selftest=selftest, functions=FUNCTIONS,
-                         bounds={"presentations": "CNF, nested ITE, aeon text, sbml text, renamed+rotated declaration order, renamed to names containing the place prefixes b0_/b1_, order reversed only, variable 0 negated, all variables negated + reversed + renamed + CNF",
+                         bounds={"presentations": "identity variables as free inputs (no rule), CNF, nested ITE, aeon text, sbml text, renamed+rotated declaration order, renamed to names containing the place prefixes b0_/b1_, order reversed only, variable 0 negated, all variables negated + reversed + renamed + CNF",
                                  "families": "U2, D3 (quick, time-boxed); + S1C2 (thorough)",
                                  "sanitisation": "2 symbolic names of length <= 2 and 3 of length 1 (quick); <= 3 / <= 2 (thorough) over the alphabet " + "".join(ALPH) + "; classes = (lengths, per-character validity, identity of valid characters)",
                                  "outside": "AEON's parsers/serialisers themselves (aeon and sbml text is produced by AEON from the bnet form)"},
